@@ -19,11 +19,11 @@ CLAIMED = {
              "the RTS indication is checked by correspondence only.",
         technique="Coq proof about models of data_msg.py and trx_if.c + Gen (reflection; harness including the real trx_if.c) + extracted-model correspondence + end-to-end oracles", ref="7-C04"),
     "C14": dict(
-        text="14 theorems: parse_msg signals nothing but ValueError for all octets (checked indexing model); a data datagram is enqueued or has no effect; handle_rx returns normally on any control datagram and keeps the world "
+        text="15 theorems: parse_msg signals nothing but ValueError for all octets (checked indexing model); a data datagram is enqueued or has no effect; handle_rx returns normally on any control datagram and keeps the world "
              "in the reachable region (thresholds >= 0, period > 0, HSN 0..63, non-empty MA, non-negative queued FNs); unparsable arguments answered -1 without effect, and so is every refused command (negative status) whatever the verb; the tick never fails on a reachable world; from the freshly "
              "started application NO history of control datagrams, data datagrams and ticks crashes anything - the model's handle_rx includes the artificial reply delay (time.sleep's domain: a delay beyond 2^63-1 ns is the crash "
              "outcome; every FAKE_TRXC_DELAY beyond 9223372036854 ms is refused, every accepted one can be slept, the invariant carries the bound) - (so later valid input is served by the other properties' theorems); capture reader total on arbitrary file content; "
-             "trxcon: trx_data_rx_cb in bounds and trx_ctrl_read_cb free of NULL dereference / out-of-extent / uninitialised reads for all datagrams and pending commands. Malformed streams injected into real sessions vs the model, "
+             "trxcon: trx_data_rx_cb in bounds, every burst indication it hands up has a timeslot 0..7, a frame inside the hyperframe and exactly 148 or 444 soft bits (never more than the scheduler's array holds), and trx_ctrl_read_cb free of NULL dereference / out-of-extent / uninitialised reads for all datagrams and pending commands. Malformed streams injected into real sessions vs the model, "
              "valid non-ASCII text, damaged captures, random octets into the parser, hostile datagrams into the real trx_if.c under ASan/UBSan (+MSan in thorough when clang is present, stale-stack differential otherwise).",
         note="partial, said plainly: Coq proves the MODEL total and in-bounds; that the real interpreter / compiled code cannot fail in a way the model has no constructor for (memory exhaustion, CPython int() corners outside the "
              "modelled ASCII grammar - non-ASCII control text is exercised by the implementation-only stream -, libc sscanf internals) is only sampled by the sanitizer runs.",
@@ -61,16 +61,19 @@ CLAIMED = {
              "datagram histories and touch nobody's queue/tuning/power; whole sessions of 2..6 transceivers (real Application wiring) compared with the extracted session model + "
              "independent reference of the routing rule from the implementation's own state.",
         note="partial: sockets/select loop/clock thread replaced by in-memory sockets and explicit ticks; delivery = written to the socket; option equality keeps the untuned None == None match "
-             "of children powered on by their parent visible (not claimed as a defect).",
-        technique="Coq proof (induction over the transceiver list, invariants) + Gen + extracted session-model correspondence on the real Application", ref="7-C02"),
+             "of children powered on by their parent visible (not claimed as a defect). Oracle: radio configuration, wiring (who manages whom, from the --trx definitions), mute / drop / version all derived from the command "
+             "history; fan-out sessions; implementation-level scenario 'SETFH handled between the ticks of two transceivers of one frame' (old sequence for the sender ticked before, new one for the sender ticked after).",
+        technique="Coq proof (induction over the transceiver list, invariants) + Gen + extracted session-model correspondence on the real Application + history-derived routing oracle", ref="7-C02"),
     "C10": dict(
         text="Theorems: the message handed to send_msg for a burst that is neither muted nor dropped has the sender's FN/TN, the recipient's version, bits mapped 0 -> +127 / non-zero -> -127, "
              "RSSI = nominal power - attenuation - burst attenuation - 110 or a draw inside the FAKE_RSSI window, ToA256 = draw in window - 256 x TA, C/I in window, modulation by burst length, "
              "TSC detection sound (the reported sequence is present at its position) and exact for generator-built access, normal and sync bursts; datagram = documented layout, v0 followed by two padding octets; "
              "defaults and the training-sequence table regenerated and proved equal to the hand-typed 45.002 tables; sessions with the real RandBurstGen compared with the model + independent metadata reference.",
         note="TSC of generator-built normal/sync bursts is proved under the side condition the detection rule imposes (no access-burst sequence at bits 8..48 of the payload); "
-             "random draws are an explicit oracle list (randint replaced by lo + r mod (hi-lo+1) in the harness).",
-        technique="Coq proof + Gen tables by reflection + extracted session-model correspondence + metadata oracle", ref="7-C10"),
+             "random draws are an explicit oracle list (randint replaced by lo + r mod (hi-lo+1) in the harness). The oracle takes the parameters in force (TA, attenuation, windows, mute, version) from the COMMAND "
+             "HISTORY (C05's reference table), not from the objects, also across power cycles and refused commands. Implementation-level race scenario: SETFORMAT on the recipient racing the forwarding of a burst on two real "
+             "threads with a preemption point at every read / write of the negotiated version (the datagram must be a well-formed one of the old or the new version).",
+        technique="Coq proof + Gen tables by reflection + extracted session-model correspondence + metadata oracle from the command history + controlled two-thread schedules", ref="7-C10"),
     "C11": dict(
         text="38 Coq theorems for the regenerated real tables: for all 35 rows of the task <-> (combination, lchan, SACCH) table, all tn 0..7 and all current frames of the hyperframe: firmware block starts equal "
              "trxcon bid-0 frames per direction; TCH and SACCH/T agree frame by frame incl. TCH/H sub-channels; burst ids cyclic; every fn lookup stays inside the table; masks cover the channels used and l1sched_configure_ts "
